@@ -746,6 +746,13 @@ func (s *S3Proxy) PutObject(ctx context.Context, input s3response.PutObjectInput
 		input.WebsiteRedirectLocation = nil
 	}
 
+	// a directory object carries no data, and the front end hands no body over for
+	// such keys: with the declared length the SDK failed ("ContentLength=N with Body
+	// length 0", three attempts) and the client got 500 after seconds
+	if input.Key != nil && strings.HasSuffix(*input.Key, "/") && input.ContentLength != nil && *input.ContentLength != 0 {
+		return s3response.PutObjectOutput{}, s3err.GetAPIError(s3err.ErrDirectoryObjectContainsData)
+	}
+
 	// no object lock for backend
 	input.ObjectLockRetainUntilDate = nil
 	input.ObjectLockMode = ""
